@@ -3,7 +3,7 @@ package main
 // Gen/C18Str.lean: the data the byte-string helpers of property C18 depend on:
 //   cmsys/const.go   ESCAPE_FLAG, FNV1_32_INIT, FNV_32_PRIME, STRIP_ANSI_*, DBCS_*
 //   types/ansi       ESC_CHR
-//   ptttype          HASH_BITS, TTLEN, STR_REPLY, STR_FORWARD, STR_LEGACY_FORWARD, SUBJECT_*
+//   ptttype          HASH_BITS, TTLEN, STR_REPLY, STR_FORWARD, STR_LEGACY_FORWARD, SUBJECT_*, PATTERN_ANSI_MOVECMD, PATTERN_ANSI_CODE
 func init() {
 	register("C18Str", func(l *loader, repo, out string) {
 		cm := l.load("cmsys")
@@ -30,7 +30,8 @@ func init() {
 		lf.nat("subjectNormal", constInt(pt, "SUBJECT_NORMAL"))
 		lf.nat("subjectReply", constInt(pt, "SUBJECT_REPLY"))
 		lf.nat("subjectForward", constInt(pt, "SUBJECT_FORWARD"))
-		for _, v := range [][2]string{{"strReply", "STR_REPLY"}, {"strForward", "STR_FORWARD"}, {"strLegacyForward", "STR_LEGACY_FORWARD"}} {
+		for _, v := range [][2]string{{"strReply", "STR_REPLY"}, {"strForward", "STR_FORWARD"}, {"strLegacyForward", "STR_LEGACY_FORWARD"},
+			{"patternAnsiMoveCmd", "PATTERN_ANSI_MOVECMD"}, {"patternAnsiCode", "PATTERN_ANSI_CODE"}} {
 			bs, d := litInts(pt, varInit(pt, v[1]))
 			if len(d) != 1 {
 				fatal("%s: unexpected shape %v", v[1], d)
